@@ -7,7 +7,7 @@ SPEC = {
              {"kind": "sflow", "quick": 15000, "thorough": 1200000}],
     # the second observation point of the property (RSS / liveness of the vflow process), on the unmodified binary
     "extra": [e2e_e2etraffic.traffic_cycles],
-    "rule": "as C01; every decode call runs under a 1 s watchdog (a hang = the model's `fuel`), its runtime.MemStats.TotalAlloc delta "
+    "rule": "as C01; one many-unknown-sets datagram in ten comes from an exporter whose cache holds 500-1500 templates (cost must not grow with the cache); the allocation bound is per datagram, with an allowance for Go map growth only for datagrams that announce templates and a K4 tolerance computed from the templates the datagram uses; every decode call runs under a 1 s watchdog (a hang = the model's `fuel`), its runtime.MemStats.TotalAlloc delta "
             "is compared with a bound linear in the datagram (16 KiB + 200 B per octet; IPFIX/v9: the product with the number of zero-length "
             "field specifiers of a cached template is tolerated only as the recorded finding K4 `fail:amplification`), and len(DataSets)/len(Samples) "
             "with the datagram length; corpus: the zero-length / zero-field template and reserved-flowset witnesses of F2; "
